@@ -289,6 +289,7 @@ static void e3_run(const char *mode, long long idx, const std::vector<Script> &s
 	rec.counters["sched_points"] += w.steps; rec.counters["sched_switches"] += w.switches;
 	{ static uint64_t max_steps = 0; if(out.kind == sched::Outcome::Ok && w.steps > max_steps) { max_steps = w.steps; rec.notes[std::string("max_points_in_a_completing_schedule:shard") + std::to_string(opt.shard)] = std::to_string(max_steps) + " (budget " + std::to_string(w.step_limit) + ")"; } }
 	std::string tail; for(size_t k = w.trace.size() > 60 ? w.trace.size() - 60 : 0; k < w.trace.size(); k++) tail += w.trace[k] + " ";
+	if(idx == 1) sample(std::string(mode) + " schedule #1, scripts{" + sdesc + "} event log: " + L.text.substr(0, 500) + " :: points: " + tail.substr(0, 600), 40);
 	std::string ctx = std::string(mode) + " scripts{" + sdesc + "}";
 	auto flag = [&](const std::string &key, const std::string &what) { case_detail("%s :: log: %s :: last points: %s", ctx.c_str(), L.text.substr(0, 1500).c_str(), tail.substr(0, 1800).c_str()); violation("C11:qs:" + key, what + " [" + ctx + "]"); };
 	if(out.kind == sched::Outcome::Deadlock) flag("blocks-forever-deadlock", "a call can never return: " + out.detail);
